@@ -4,7 +4,10 @@ import (
 	"fmt"
 	"os"
 	"path/filepath"
+	"regexp"
+	"sort"
 	"strings"
+	"sync"
 	"time"
 )
 
@@ -79,6 +82,8 @@ type c12Case struct {
 	noMod bool
 }
 
+var identRe = regexp.MustCompile(`[A-Za-z_][A-Za-z0-9_]*`)
+
 func classifyLox(dir string, r cmdResult) (ok bool, why string) {
 	out := string(r.Out) + string(r.Err)
 	if r.TimedOut {
@@ -116,7 +121,10 @@ func checkC12(c *checkCtx) {
 	}
 	top := scratchDir("c12")
 	defer os.RemoveAll(top)
-	os.WriteFile(filepath.Join(top, "go.mod"), []byte("module c12\n\ngo 1.23.0\n"), 0o644)
+	os.WriteFile(filepath.Join(top, "go.mod"), []byte("module c12\n\ngo 1.23.0\n\nrequire github.com/dcaiafa/loxlex v0.5.0\n"), 0o644)
+	if sum, err := os.ReadFile(filepath.Join(repoDir, "go.sum")); err == nil {
+		os.WriteFile(filepath.Join(top, "go.sum"), sum, 0o644)
+	}
 
 	var bases []string
 	for _, d := range shippedDirs {
@@ -184,7 +192,25 @@ func checkC12(c *checkCtx) {
 		nm := 1 + c.rng.intn(3)
 		for m := 0; m < nm && len(toks) > 0; m++ {
 			p := c.rng.intn(len(toks))
-			switch c.rng.intn(5) {
+			switch c.rng.intn(6) {
+			case 5:
+				// cross-kind reference: an identifier (often the argument of @push_mode / @emit or a macro
+				// reference) is replaced by another name declared in the same specification
+				names := identRe.FindAllString(base, -1)
+				var cand []int
+				for k, t := range toks {
+					if strings.Contains(t, "(") && identRe.MatchString(t) {
+						cand = append(cand, k, k, k)
+					} else if identRe.MatchString(t) {
+						cand = append(cand, k)
+					}
+				}
+				if len(cand) > 0 && len(names) > 0 {
+					k := pick(c.rng, cand)
+					locs := identRe.FindAllStringIndex(toks[k], -1)
+					l := locs[len(locs)-1]
+					toks[k] = toks[k][:l[0]] + pick(c.rng, names) + toks[k][l[1]:]
+				}
 			case 0:
 				toks = append(toks[:p], toks[p+1:]...)
 			case 1:
@@ -215,6 +241,31 @@ func checkC12(c *checkCtx) {
 			addJob("byte-level damage", string(b), okGo, true)
 		}
 	}
+	// the single-fault specifications of the C17 generator (every fault kind), as one file each
+	for i := 0; i < 3; i++ {
+		for k := 0; k <= c17MaxFault; k++ {
+			r2 := newRng(c.seed*77 + int64(i))
+			sp, lits := genASpec(r2)
+			sp.fault = injectFault(r2, sp, k)
+			if sp.fault == "" {
+				continue
+			}
+			for k2, v := range sp.extraLits {
+				lits[k2] = v
+			}
+			files, _ := sp.text(c.rng, lits)
+			var names []string
+			for n := range files {
+				names = append(names, n)
+			}
+			sort.Strings(names)
+			all := ""
+			for _, n := range names {
+				all += files[n]
+			}
+			addJob("single-fault specification: "+sp.fault, all, okGo, true)
+		}
+	}
 	valid := "@lexer\nA = 'a'\n@parser\n@start s = A\n"
 	for name, src := range goVariants {
 		addJob("go package: "+name, valid, src, true)
@@ -223,6 +274,40 @@ func checkC12(c *checkCtx) {
 	addJob("no .lox file", "\x00none", okGo, true)
 	addJob("empty .lox file", "", okGo, true)
 
+	// Where the front end accepts the mutated specification, give it a Go package with an action for
+	// every production, so that the binding and emission stages are reached too (with the bare package
+	// every grammar stops at "missing action").  The production list comes from the hook's dump.
+	const chunk = 24
+	nch := (len(jobs) + chunk - 1) / chunk
+	fitted := 0
+	var fitMu sync.Mutex
+	parallel(nch, func(ci int) {
+		lo, hi := ci*chunk, (ci+1)*chunk
+		if hi > len(jobs) {
+			hi = len(jobs)
+		}
+		var dirs []string
+		for _, j := range jobs[lo:hi] {
+			dirs = append(dirs, j.dir)
+		}
+		ds, err := dumpDirsT(dirs, 4*time.Minute)
+		if err != nil {
+			return // the real binary is still run below and judged on its own
+		}
+		for k, d := range ds {
+			j := jobs[lo+k]
+			if !d.OK || j.input["user.go"] != okGo || !strings.HasPrefix(j.what, "token-level") && !strings.HasPrefix(j.what, "single-fault") {
+				continue
+			}
+			src := genUserGo(d, userOpts{})
+			os.WriteFile(filepath.Join(j.dir, "user.go"), []byte(src), 0o644)
+			j.input["user.go"] = src
+			j.what += " (with fitted actions)"
+			fitMu.Lock()
+			fitted++
+			fitMu.Unlock()
+		}
+	})
 	results := make([]cmdResult, len(jobs))
 	parallel(len(jobs), func(i int) {
 		results[i] = run(top, 5*time.Minute, nil, loxBin, jobs[i].dir)
@@ -238,6 +323,9 @@ func checkC12(c *checkCtx) {
 		}
 		if len(c.cov.Samples) < 3 && i%97 == 5 {
 			c.sample(map[string]any{"kind": j.what, "exit": results[i].Code, "stderr": lastLines(string(results[i].Err), 2)})
+		}
+		if os.Getenv("VERIF_DEBUG") != "" && strings.Contains(j.what, "push_mode") {
+			fmt.Println("  DEBUG", j.what, results[i].Code, lastLines(string(results[i].Err), 2))
 		}
 		if !ok {
 			// signature: the kind of failure and the innermost lox frame, so that different crashes stay distinct
@@ -255,5 +343,5 @@ func checkC12(c *checkCtx) {
 		}
 	}
 	c.cov.Programs = len(jobs)
-	c.cov.Extra = mergeExtra(c.cov.Extra, map[string]any{"exit0": accepted, "diagnosed": rejected})
+	c.cov.Extra = mergeExtra(c.cov.Extra, map[string]any{"exit0": accepted, "diagnosed": rejected, "front_end_accepted_and_given_fitted_actions": fitted})
 }
